@@ -40,7 +40,7 @@ try:
     rc, tail = pytest([])
     ran.append("refactored: full suite -> rc %d (%s)" % (rc, tail))
     ok &= rc == 0 and "85 passed" in tail
-    for d in sorted(glob.glob(base + "/out/[ABCD]/demo_test.py")):
+    for d in sorted(glob.glob(base + "/out/[A-M]/demo_test.py")):
         rc, tail = pytest([d])
         ran.append("refactored: %s -> rc %d (%s)" % (d.split("/out/")[1], rc, tail))
         ok &= rc == 0
